@@ -1,5 +1,60 @@
 /-
-  Sipsp.Proofs.UriComplete — ParseURI: WHICH texts are accepted (completeness), and the error positions.
+  Sipsp.Proofs.UriComplete — ParseURI: WHICH texts are accepted (property C14, completeness), the exact
+  `accepted ↔ grammar` for sip: / sips:, and error code + position of the common rejections.
+
+  THE GRAMMAR (index based, on the bytes of `b`; byte classes taken from the "ordinary byte" branches of the
+  automaton `uriStep`):
+    * scheme (`UcSchSip` / `UcSchSips` / `UcSchTel`): the first four bytes are compared after OR-ing 0x20 into each, so
+      letters match in either case (and 0x1a passes for the ':' of `sip:` / `tel:`); the ':' of `sips:` is exact;
+    * `UcRest b k u` — what stands behind a scheme of `k` bytes, decomposed into the components of `u`:
+        - no user-info: host = `UcFirstTok` (first byte none of `[ : ]` but otherwise ANY byte, even `@ ; ?`; then
+          no `@ : ; ? [ ]`; note: `&` is allowed here) or `UcBrHost` (`[` … `]`, inside none of `] [ @ ; ? &`);
+        - or user-info, '@' at `a`, then host = `UcNameHost` (not empty, no `: ; ? & @`, first byte not `[`; `]` and
+          a later `[` ARE allowed) or `UcBrHost`; the user-info is
+            `UcUserPlain`: user [`:` password], neither with any of `@ : ; ? [ ]` (first user byte as above), or
+            `UcUserBack` (the back-tracking forms: `;` / `?` in front of the '@' belong to the user): a head that the
+              automaton first reads as host [and port] (`UcBackHead`: first token | `[…]` | `[…]:digits` of value
+              ≤ 65535), the first `;` / `?`, then bytes without `@` and `:`; optionally `:` and a password without
+              `@ : ; ?` (brackets allowed here); the user is everything from the scheme to that `:` / the '@';
+        - then `UcPo`: optional `:` digits (value = `portNo` ≤ 65535, leading zeros fine, may be empty), optional `;`
+          parameters (no `?`, no `@`), optional `?` headers (no `;`, no `@`) up to the end of the input;
+    * `UcURI b u` = sip / sips scheme + `UcRest`; `UcTelURI b u` = tel scheme + `UcRest` (`u` = sip-style
+      decomposition, number as host).
+  PROVED, for every `b` of at most 65,535 bytes (all final theorems carry EXPORT C14):
+    * `parseURI_complete` : `UcURI b u → parseURI b {} = (.none, b.size, u, false)` — accepted, consumed to the end,
+      no panic, and user, password, host, port, port number, parameters, headers, scheme and type are exactly those
+      of the decomposition; `parseURI_complete_gen` (all three types, through `ucOut`), `ucRun_complete` (behind the
+      scheme, any start state); covers the forms without user, with user, user:password and all back-tracking forms;
+    * `parseURI_sound` : an accepted sip: / sips: text is a text of the grammar and the report is its decomposition
+      (new loop invariant `UcSInv` on top of `UInv` / `ULPInv` of UriSpec / UriLink: `ucs_step`, `uriLoop_ucs`,
+      `uriFinish_cls`; assembled with `URILayout` and `ULPortOK` in `uc_rest_of_layout`);
+    * `parseURI_iff` : `UcURI b u ↔ parseURI b {} = (.none, b.size, u, false) ∧ u.uriType ≠ TELuri`;
+      `parseURI_ok_iff` : accepted as sip / sips ↔ `∃ u, UcURI b u`; `UcURI_unique` : the decomposition is unique;
+    * tel: — `parseURI_complete_tel` (any text of the grammar behind `tel:`: accepted, host field zero, the number
+      reported as user), `parseURI_tel_simple` (`tel:` number [`;` params], no `@ : ; ? [ ]` in the number);
+    * rejections (`UcErrAt r e p` = error code `e`, position `p`):
+        `parseURI_err_short` (< 5 bytes: ErrURITooShort at len), `parseURI_err_scheme` (≥ 5 bytes, none of the three
+        schemes: ErrURIScheme at 4), and behind `scheme [user-info @]` (`UcHostAt`):
+        `parseURI_err_empty_host` (end of input or one of `: ; ? & @` where the host must start: ErrURIHost at that
+        byte), `parseURI_err_bracket_open` (`[` not closed before the end / before one of `[ @ ; ? &`: ErrURIHost
+        there), `parseURI_err_bracket_junk` (byte other than `: ; ?` behind `]`: ErrURIHost at it),
+        `parseURI_err_port_char` (non-digit other than `; ?` in the port of `user@host:` or `[…]:` : ErrURIPort at
+        it), `parseURI_err_port_big` (digits of value > 65535 closed by `;` `?` or the end: ErrURIPort at the byte
+        behind the digits; all host forms).
+    * tel: converse — `parseURI_sound_tel`, `parseURI_tel_iff`: accepted as tel: ↔ `∃ u, UcTelURI b u`, the report
+      being `u` with the host handed out as user (proved by re-typing: the automaton never reads the URI type
+      before the end-of-input switch, `uc_step_retype` / `uc_loop_retype` / `uc_finish_retype`);
+  NOT proved here:
+    * error code / position of the remaining rejections (`ErrURIBadChar` cases such as a second '@', `[` `]` in a
+      user, `;` in the headers (`ErrURIHeaders` at the end), a password without '@');
+    * `host:12x` WITHOUT '@' is not covered by `parseURI_err_port_char`, because there the model does not report the
+      offending byte: the `x` is taken as the start of a password and the rejection is ErrURIPort at the END of the
+      input (`sip:h:12x` → position 9), or ErrURIBadChar at a following `;` / `?` (tests at the end of the file).
+  Quirks of the accepted language made explicit by the grammar (tests at the end): `sip:a&b` accepted but
+  `sip:u@a&b` rejected; `sip:u@a]b[` accepted; `[` `]` allowed in a password that follows a `;`-user
+  (`sip:h;a:[b]@d`) but not in a plain one (`sip:u:[b]@d`); a bracketed text with a port in front of a later '@'
+  needs a port ≤ 65535 although it ends up in the user part (`sip:[a]:70000;x@h` → ErrURIPort); `sip:u:1;x@h` is
+  rejected (digits + `;` commit `u` as host) while `sip:[a]:1;x@h` is accepted.
 -/
 import Sipsp.Proofs.UriLink
 
@@ -2695,6 +2750,162 @@ example : (parseURI "sip:u@".toUTF8.data {}).1 = .host ∧ (parseURI "sip:u@".to
 example : (parseURI "sip:h:12x".toUTF8.data {}).1 = .port ∧ (parseURI "sip:h:12x".toUTF8.data {}).2.1 = 9 ∧
     (parseURI "sip:h:12x;y".toUTF8.data {}).1 = .badChar ∧ (parseURI "sip:h:12x;y".toUTF8.data {}).2.1 = 9 := by
   decide +kernel
+
+
+/-! ### tel: the converse, by re-typing (the automaton never looks at the URI type before the very end) -/
+
+def ucRetype (t' : Nat) (σ : UState) : UState := { σ with u := { σ.u with uriType := t' } }
+
+def ucRetypeStep (t' : Nat) : UStep → UStep
+  | .next σ => .next (ucRetype t' σ)
+  | .fail e p σ => .fail e p (ucRetype t' σ)
+
+theorem uc_step_retype (t' i : Nat) (c : UInt8) (σ : UState) :
+    uriStep i c (ucRetype t' σ) = ucRetypeStep t' (uriStep i c σ) := by
+  rcases σ with ⟨st, s, fu, po, pn, eh, u, pnc⟩
+  by_cases hpo : (po != 0) = true <;> by_cases hbig : pn > 65535 <;> cases fu <;> cases st <;>
+    simp only [uriStep, uAtInParams, ucRetype, UState.setHost, UState.setUser, UState.setPass,
+      UState.setPort, UState.setParams, hpo, hbig, Bool.false_eq_true, ↓reduceIte, beq_self_eq_true,
+      Bool.true_eq_false, beq_iff_eq, Bool.or_false, Bool.or_true, Bool.false_or, Bool.true_or] <;>
+    (repeat' split) <;> rfl
+
+theorem uc_loop_retype (t' : Nat) (b : Buf) (i : Nat) (σ : UState) :
+    uriLoop b i (ucRetype t' σ) = ((uriLoop b i σ).1, (uriLoop b i σ).2.1, ucRetype t' (uriLoop b i σ).2.2) := by
+  fun_induction uriLoop b i σ with
+  | case1 i σ hb => rw [uc_loop_end hb]
+  | case2 i σ c hb σ' hstep ih =>
+    have : uriStep i c (ucRetype t' σ) = .next (ucRetype t' σ') := by rw [uc_step_retype, hstep]; rfl
+    rw [uc_loop_next hb this, ih]
+  | case3 i σ c hb e p σ' hstep =>
+    have : uriStep i c (ucRetype t' σ) = .fail e p (ucRetype t' σ') := by rw [uc_step_retype, hstep]; rfl
+    rw [uc_loop_fail hb this]
+
+/-- the end-of-input switch for a tel: state and for the same state typed sip: same verdict; the tel report is the
+    sip report with the host handed out as user -/
+theorem uc_finish_retype (n : Nat) (σ : UState) (hty : σ.u.uriType = TELuri) :
+    (uriFinish n σ).1 = (uriFinish n (ucRetype SIPuri σ)).1 ∧
+    ((uriFinish n σ).1 = .none →
+      (uriFinish n σ).2.2.u = telSwap { (uriFinish n (ucRetype SIPuri σ)).2.2.u with uriType := TELuri } ∧
+      (uriFinish n σ).2.2.pnc = (uriFinish n (ucRetype SIPuri σ)).2.2.pnc) := by
+  rcases σ with ⟨st, s, fu, po, pn, eh, u, pnc⟩
+  rcases u with ⟨a1, a2, a3, a4, a5, a6, a7, a8, a9⟩
+  simp only at hty
+  subst hty
+  cases st <;> cases fu <;> cases eh <;>
+    simp +decide only [uriFinish, ucRetype, UState.setHost, UState.setPort, UState.setParams, UState.setHeaders,
+      Bool.false_eq_true, ↓reduceIte, Bool.or_false, Bool.or_true, Bool.false_or, Bool.true_or, telSwap] <;>
+    (repeat' split) <;> simp +decide [telSwap]
+
+theorem uc_run_retype {b : Buf} {k : Nat} {σ : UState} (h : UInv b TELuri k k σ) (hacc : (ucRun b k σ).1 = .none) :
+    (ucRun b k (ucRetype SIPuri σ)).1 = .none ∧
+    (ucRun b k σ).2.2.1 = telSwap { (ucRun b k (ucRetype SIPuri σ)).2.2.1 with uriType := TELuri } := by
+  have hl := uriLoop_ok k σ h
+  revert hacc
+  unfold ucRun
+  rw [uc_loop_retype]
+  rcases hq : uriLoop b k σ with ⟨e, i, σ'⟩
+  rw [hq] at hl
+  simp only at hl
+  by_cases he : e = .none
+  · subst he
+    obtain ⟨_, hinv⟩ := hl.1 rfl
+    have hty : σ'.u.uriType = TELuri := hinv.2.1
+    obtain ⟨f1, f2⟩ := uc_finish_retype i σ' hty
+    simp only
+    intro hacc
+    exact ⟨by rw [← f1]; exact hacc, (f2 hacc).1⟩
+  · intro hacc
+    exfalso
+    apply he
+    cases e <;> first | rfl | exact hacc
+
+theorem UcComp.retype {b : Buf} {t t' k : Nat} {u : PsipURI} (h : UcComp b t k u) :
+    UcComp b t' k { u with uriType := t' } := ⟨rfl, h.2.1, h.2.2⟩
+
+/-- **EXPORT C14 — soundness of the grammar for tel:**: an accepted tel: text is a text of the grammar; the report
+    is its decomposition with the host (the number) handed out as the user -/
+theorem parseURI_sound_tel (b : Buf) (hfit : b.size ≤ 65535) (hacc : (parseURI b {}).1 = .none)
+    (htel : (parseURI b {}).2.2.1.uriType = TELuri) :
+    ∃ u, UcTelURI b u ∧ (parseURI b {}).2.2.1 = { u with user := u.host, host := {} } := by
+  by_cases h5 : b.size < 5
+  · rw [parseURI_err_short b h5] at hacc
+    cases hacc
+  obtain ⟨b0, h0⟩ : ∃ c, b[0]? = some c := ⟨b[0]'(by omega), Array.getElem?_eq_getElem (by omega)⟩
+  obtain ⟨b1, g1⟩ : ∃ c, b[1]? = some c := ⟨b[1]'(by omega), Array.getElem?_eq_getElem (by omega)⟩
+  obtain ⟨b2, g2⟩ : ∃ c, b[2]? = some c := ⟨b[2]'(by omega), Array.getElem?_eq_getElem (by omega)⟩
+  obtain ⟨b3, g3⟩ : ∃ c, b[3]? = some c := ⟨b[3]'(by omega), Array.getElem?_eq_getElem (by omega)⟩
+  obtain ⟨b4, g4⟩ : ∃ c, b[4]? = some c := ⟨b[4]'(by omega), Array.getElem?_eq_getElem (by omega)⟩
+  have hunf := uc_parse_unfold h0 g1 g2 g3 g4
+  have nontel : ∀ (t k : Nat) (st : US), (st = .initSIP ∨ st = .initSIPS ∨ st = .initTEL) → 0 < k → k ≤ b.size →
+      t ≠ TELuri → (ucRun b k (ucStart t st k)).1 = .none → (ucRun b k (ucStart t st k)).2.2.1.uriType ≠ TELuri := by
+    intro t k st hst hk hk2 ht ha
+    rw [(ucRun_sound st hst hk hk2 hfit ht ha).1]
+    exact ht
+  by_cases c1 : ucWord b0 b1 b2 b3 = 980445555
+  · rw [if_pos c1] at hunf
+    rw [hunf] at hacc htel
+    exact absurd htel (nontel SIPuri 4 .initSIP (Or.inl rfl) (by omega) (by omega) (by decide) hacc)
+  rw [if_neg c1] at hunf
+  by_cases c2 : ucWord b0 b1 b2 b3 = 980182388
+  · rw [if_pos c2] at hunf
+    rw [hunf] at hacc ⊢
+    have hinv : UInv b TELuri 4 4 (ucStart TELuri .initTEL 4) :=
+      uinv_start b TELuri 4 .initTEL (Or.inr (Or.inr rfl)) (by omega) (by omega) hfit
+    obtain ⟨ha2, hu⟩ := uc_run_retype hinv hacc
+    have hcomp := ucRun_sound (t := SIPuri) .initTEL (Or.inr (Or.inr rfl)) (by omega) (by omega) hfit (by decide) ha2
+    refine ⟨{ (ucRun b 4 (ucStart SIPuri .initTEL 4)).2.2.1 with uriType := TELuri },
+      ⟨⟨b0, b1, b2, b3, h0, g1, g2, g3,
+        (ucWord_eq b0 b1 b2 b3 116 101 108 58 (by omega) (by omega) (by omega) (by omega)).mp c2⟩, hcomp.retype⟩, ?_⟩
+    rw [hu]
+    rfl
+  rw [if_neg c2] at hunf
+  by_cases c3 : ucWord b0 b1 b2 b3 = 1936746867 ∧ b4 = 58
+  · rw [if_pos c3] at hunf
+    rw [hunf] at hacc htel
+    exact absurd htel (nontel SIPSuri 5 .initSIPS (Or.inr (Or.inl rfl)) (by omega) (by omega) (by decide) hacc)
+  · rw [if_neg c3] at hunf
+    rw [hunf] at hacc
+    cases hacc
+
+/-- **EXPORT C14 — which texts are accepted as tel:**: exactly the texts of the grammar behind `tel:` -/
+theorem parseURI_tel_iff (b : Buf) (hfit : b.size ≤ 65535) :
+    ((parseURI b {}).1 = .none ∧ (parseURI b {}).2.2.1.uriType = TELuri) ↔ ∃ u, UcTelURI b u := by
+  constructor
+  · intro ⟨hacc, ht⟩
+    obtain ⟨u, hu, _⟩ := parseURI_sound_tel b hfit hacc ht
+    exact ⟨u, hu⟩
+  · intro ⟨u, hu⟩
+    rw [parseURI_complete_tel b hfit u hu]
+    exact ⟨rfl, hu.2.1⟩
+
+
+-- tel: with user-info: accepted, hence a text of the grammar behind `tel:` (test / non-vacuity of `parseURI_tel_iff`)
+example : ∃ u, UcTelURI "tel:a:b@c".toUTF8.data u :=
+  (parseURI_tel_iff _ (by decide +kernel)).mp ⟨by decide +kernel, by decide +kernel⟩
+
+-- the hypotheses of `parseURI_err_scheme` and `parseURI_err_empty_host` are met by concrete inputs
+example : parseURI "http://x".toUTF8.data {} = (.scheme, 4, {}, false) :=
+  parseURI_err_scheme _ (by decide +kernel)
+    (by rintro ⟨b0, _, _, _, h0, _, _, _, hl, _⟩
+        have e : some b0 = some (104 : UInt8) := h0.symm.trans (by decide +kernel)
+        cases e
+        exact absurd hl (by decide))
+    (by rintro ⟨b0, _, _, _, h0, _, _, _, hl, _⟩
+        have e : some b0 = some (104 : UInt8) := h0.symm.trans (by decide +kernel)
+        cases e
+        exact absurd hl (by decide))
+    (by rintro ⟨⟨b0, _, _, _, h0, _, _, _, hl, _⟩, _⟩
+        have e : some b0 = some (104 : UInt8) := h0.symm.trans (by decide +kernel)
+        cases e
+        exact absurd hl (by decide))
+example : UcErrAt (parseURI "sip:u@".toUTF8.data {}) .host 6 :=
+  parseURI_err_empty_host _ (by decide +kernel) (t := SIPuri) (k := 4) (hs := 6)
+    (Or.inl ⟨rfl, rfl, 115, 105, 112, 58, by decide +kernel, by decide +kernel, by decide +kernel, by decide +kernel,
+      by decide +kernel, by decide +kernel, by decide +kernel, by decide +kernel⟩)
+    (Or.inr ⟨5, ⟨4, 1⟩, ⟨0, 0⟩, rfl, by decide +kernel,
+      Or.inl ⟨5, ⟨by decide, ucAll_of_check (by decide +kernel), ucAll_of_check (by decide +kernel)⟩, rfl,
+        Or.inl ⟨rfl, rfl⟩⟩⟩)
+    (by decide) (Or.inl (by decide +kernel))
 
 
 end Sipsp
